@@ -268,11 +268,23 @@ fn case_del(rng: &mut Rng, keys: &Keys) -> Case {
         es.push(format!("{{| de_kind := {}; de_ent := {}; de_room := {}; de_author := {}; de_date := {} |}}",
             if auth_like { "KAuthLike" } else { "KNormal" }, gn(ent), gon(room), gn(author), gz(date)));
     }
+    // source rows of reference deletions (DeletionQuery.updated_nodes): checked like an update at `now`
+    let mut us = vec![];
+    for _ in 0..rng.below(3) {
+        let auth_like = rng.chance(1, 20);
+        let ent = 1 + rng.below(3);
+        let room = match rng.below(10) { 0 => None, 1 => Some(9), _ => Some(1 + rng.below(nrooms)) };
+        let author = 1 + rng.below(3);
+        let name = if auth_like { "sys.Room".to_string() } else { ent_name(ent) };
+        dq.updated_nodes.push(NodeDelete { node: Node { room_id: room.map(uid_of), verifying_key: keys.bytes(author), _entity: "9".into(), mdate: now, ..Default::default() }, name, date: now });
+        us.push(format!("{{| dn_kind := {}; dn_ent := {}; dn_room := {}; dn_author := {}; dn_date := {} |}}",
+            if auth_like { "KAuthLike" } else { "KNormal" }, gn(ent), gon(room), gn(author), gz(now)));
+    }
     discret::verif_hooks::date_utils::verif_clock::set(now);
     let v = match ra.validate_deletion(&mut dq) { Ok(_) => 0, Err(e) => verdict(&e) };
     discret::verif_hooks::date_utils::verif_clock::clear();
-    Case { kind: "deletion".into(), coq: format!("CDel {} {} {} {} {}", defs_coq(&defs), gn(1), gz(now), glist(&ns), glist(&es)),
-           obs: vec![v], meta: json!({"nodes": ns.len(), "edges": es.len(), "verdict": v}) }
+    Case { kind: "deletion".into(), coq: format!("CDel {} {} {} {} {} {}", defs_coq(&defs), gn(1), gz(now), glist(&ns), glist(&es), glist(&us)),
+           obs: vec![v], meta: json!({"nodes": ns.len(), "edges": es.len(), "updated": us.len(), "verdict": v}) }
 }
 
 fn main() {
